@@ -196,7 +196,7 @@ example : CustomAgree regEven := by
 example : ¬ CustomAgree (Reg.ofTypes [("Any", .custom)]) := by
   intro h
   have := h "Any" (.int 5) (.int 5) rfl .int
-  simp [Reg.ofTypes, defaultScalarParse, defaultScalarParseLiteral, untypedLiteral, ParseOut.toR, Except.toOption, pvOfJson] at this
+  simp [Reg.ofTypes, defaultScalarParse, defaultScalarParseLiteral, untypedLiteral, ParseOut.toR, Except.toOption, pvOfJson, jvAllFinite] at this
 /-- `customNotNone` cannot be dropped: a parser answering None puts None at a non-null position -/
 def regNoneScalar : Reg := { types := [("S", .custom)], customParse := fun _ _ => .value .none, customParseLiteral := fun _ _ => .refused,
                              customHasParseLiteral := fun _ => false }
